@@ -45,7 +45,8 @@ def run(module_path, cfg=None, workers=4, simulate=None, depth=None, env=None, x
     os.makedirs(os.path.join(BUILD, "tlc"), exist_ok=True)
     meta = tempfile.mkdtemp(prefix="m", dir=os.path.join(BUILD, "tlc"))
     libdirs = os.pathsep.join(d for d in _specdir_path() if d != mdir)
-    jopts = ["-XX:+UseParallelGC", "-Xss64m", "-Xmx" + xmx, "-DTLA-Library=" + libdirs]
+    jopts = ["-XX:+UseParallelGC", "-Xss64m", "-Xmx" + xmx, "-DTLA-Library=" + libdirs,
+             "-Djava.io.tmpdir=" + meta]       # TLC leaves an empty tlc-* directory per run in java.io.tmpdir
     if deque:
         jopts.append("-Dtlc2.tool.queue.IStateQueue=StateDeque")
     cmd = ["java"] + jopts + ["-cp", CP, "tlc2.TLC", "-workers", str(workers), "-metadir", meta,
